@@ -12,12 +12,18 @@
       ([C09_help_retries_only_on_change]: it loops only when the control word differs from the
       one read before) and the head push of [Node::get];
     - [load]/[load_full] inside [help] (the replacement) is wait-free ([C08]).
-    NOT yet proved (partial): the closed bound "running alone from any reachable state, a
-    store/swap/cas/rcu/into_inner/drop finishes within B(number of nodes) steps" as one theorem;
-    it is searched for counterexamples by the freeze sweeps of the correspondence runner
-    (every other thread suspended at every point of scenario programs: the solo thread must
-    finish its operation within 3000 steps). *)
-From ASModel Require Import Base State Orderings_gen Step Run Progress Hist.
+    - CLOSED BOUND ([ProgressW]): from every state satisfying the inductive invariant WF2 (hence
+      from every reachable state, [C09_solo_bound_reachable]), a thread that runs alone while all
+      other threads are frozen wherever they are leaves its current operation after at most
+      [mu] own steps, an explicit measure that strictly decreases with every step; from the start
+      of a store / swap / into_inner / container drop that is [68*H + k + 80] steps, for
+      compare_and_swap and rcu [O(k*H + k^2 + H)], where H is the number of debt nodes and k the
+      number of spurious failures of weak compare-exchange the scheduler injects
+      ([C09_writer_solo_bound], [C09_solo_bound_closed], [C09_solo_completes]).  Faults and panics
+      count as finished; they are excluded by C01 / C13.
+    The freeze sweeps of the correspondence runner search the implementation for a thread that
+    cannot finish alone (every other thread suspended at every point of scenario programs). *)
+From ASModel Require Import Base State Orderings_gen Step Run Progress Hist Inv InvTl InvProto InvStep ProgressW.
 
 Theorem C09_no_waiting :
   forall cf s t t' x, t' <> t -> thr (fst (step cf s t' x)) t = thr s t.
@@ -34,5 +40,36 @@ Theorem C09_help_retries_only_on_change :
     exists e, exec cf s l (PE3 c old w ctl) x = (s, l, [e], NGoto (PS c old w 0)).
 Proof. exact help_reread. Qed.
 
+Theorem C09_solo_bound : forall cf t xs s k,
+  WF2 s -> (spurs cf t xs s <= k)%nat -> (solo_steps cf t xs s <= mu_of s t k)%nat.
+Proof. exact solo_bound. Qed.
+
+Theorem C09_solo_bound_closed : forall cf t xs s k,
+  WF2 s -> t_status (thr s t) = Running -> (spurs cf t xs s <= k)%nat ->
+  (solo_steps cf t xs s <= B_any (headn (sh s)) k (length (t_stack (thr s t))))%nat.
+Proof. exact solo_bound_closed. Qed.
+
+Theorem C09_writer_solo_bound : forall cf t s x0 xs k c,
+  WF2 s -> t_status (thr s t) = Running -> t_stack (thr s t) = [] ->
+  nth_error (t_prog (thr s t)) (N.to_nat (t_cmdi (thr s t))) = Some c ->
+  cmd_enabled s c = true -> is_writer c = true ->
+  (spurs cf t xs (fst (step cf s t x0)) <= k)%nat ->
+  (solo_steps cf t xs (fst (step cf s t x0)) <= B_cmd c (headn (sh s)) k)%nat.
+Proof. exact writer_solo_bound. Qed.
+
+Theorem C09_solo_completes : forall cf t s k xs,
+  WF2 s -> (spurs cf t xs s <= k)%nat -> (mu_of s t k < length xs)%nat ->
+  exists n, (n <= mu_of s t k)%nat /\
+            busy (run_state cf s (solo_sched t (firstn n xs))) t = false.
+Proof. exact solo_completes. Qed.
+
+Theorem C09_swap_bound_formula : forall H k, B_swap H k = (68 * H + k + 80)%nat.
+Proof. exact B_swap_eq. Qed.
+
 Print Assumptions C09_no_waiting.
+Print Assumptions C09_solo_bound.
+Print Assumptions C09_solo_bound_closed.
+Print Assumptions C09_writer_solo_bound.
+Print Assumptions C09_solo_completes.
+Print Assumptions C09_swap_bound_formula.
 Print Assumptions C09_help_retries_only_on_change.
